@@ -552,6 +552,11 @@ class Interp:
         if isinstance(test, ast.UnaryOp) and isinstance(test.op, ast.Not) and isinstance(test.operand, ast.BoolOp):
             t, f = self._refine(test.operand, facts)
             return f, t
+        if isinstance(test, ast.UnaryOp) and isinstance(test.op, ast.Not) and getattr(self.a, "strip_not_in_tests", True):
+            # `not x`: refine on x and swap the edges, so that a rule's branch() written for the positive form also reads the
+            # negated one (guard clauses, swapped arms)
+            t, f = self._refine(test.operand, facts)
+            return f, t
         ts: list = []
         fs: list = []
         for fact in facts:
